@@ -80,4 +80,8 @@ Definition from_tai_duration_all (tai : duration) (t : timescale) : duration :=
   end.
 Definition to_time_scale_all (e : epoch) (t : timescale) : epoch :=
   if ts_eqb t (scale e) then e else mkE (from_tai_duration_all (to_tai_duration_all e) t) t.
+(* impl Ord for Epoch with an ET / TDB operand: same scale -> the durations, otherwise both on the TAI axis *)
+Definition epoch_cmp_all (a b : epoch) : comparison :=
+  if ts_eqb (scale a) (scale b) then dur_cmp (dur a) (dur b)
+  else dur_cmp (to_tai_duration_all a) (to_tai_duration_all b).
 End WithSin.
